@@ -59,4 +59,32 @@ PROPS = {
                 "return what the cache-less model returns",
         "assumptions": ["each storage operation is atomic (DashMap / RwLock); concurrent read-fill racing a write-through is outside this model (see DESIGN.md K3)"],
     },
+    "C01": {
+        "coq_deps": ["DirFacts", "Spec"],
+        "steps": [{"sub": "dirs", "quick": [0], "thorough": [1]}],
+        "rule": "random publish histories on the real Directory (both configurations; cached/uncached; sequential/parallel insertion; labels incl. empty, 1-byte, prefix-related and 330-byte; values incl. empty and 1500-byte; inserts, updates, re-submissions, no-op and duplicate-label batches): after every publish the full database (every node record, the epoch record, every value state) and the returned epoch hash are recomputed by the extracted model; the root hash is recomputed from the history alone by the canonical-trie specification (specroot); every lookup, key-history (Complete, MostRecent 1/n/n+3/random) and audit proof is compared structurally with the model's and its verification verdict and result with the model verifier's; ground truth from an independent version table",
+        "partial": "theorems cover publish's control flow (duplicates, no-op, epoch stepping); root hash = hash of the canonical trie over the prescribed leaves is decided by the specroot correspondence on every run, not yet by a refinement theorem",
+        "assumptions": ["VRF outputs are an environment table produced by the implementation's primitive"],
+    },
+    "C02": {
+        "coq_deps": ["DirFacts"],
+        "steps": [{"sub": "dirs", "quick": [0], "thorough": [1]}],
+        "rule": "random publish histories on the real Directory (both configurations; cached/uncached; sequential/parallel insertion; labels incl. empty, 1-byte, prefix-related and 330-byte; values incl. empty and 1500-byte; inserts, updates, re-submissions, no-op and duplicate-label batches): after every publish the full database (every node record, the epoch record, every value state) and the returned epoch hash are recomputed by the extracted model; the root hash is recomputed from the history alone by the canonical-trie specification (specroot); every lookup, key-history (Complete, MostRecent 1/n/n+3/random) and audit proof is compared structurally with the model's and its verification verdict and result with the model verifier's; ground truth from an independent version table",
+        "partial": "theorems: unpublished label refused; a returned proof reports the latest state with the current epoch hash and its membership parts verify; verification of the non-membership part and of the VRF parts is decided by correspondence + oracle",
+        "assumptions": ["VRF outputs are an environment table produced by the implementation's primitive"],
+    },
+    "C03": {
+        "coq_deps": ["DirFacts"],
+        "steps": [{"sub": "dirs", "quick": [0], "thorough": [1]}],
+        "rule": "random publish histories on the real Directory (both configurations; cached/uncached; sequential/parallel insertion; labels incl. empty, 1-byte, prefix-related and 330-byte; values incl. empty and 1500-byte; inserts, updates, re-submissions, no-op and duplicate-label batches): after every publish the full database (every node record, the epoch record, every value state) and the returned epoch hash are recomputed by the extracted model; the root hash is recomputed from the history alone by the canonical-trie specification (specroot); every lookup, key-history (Complete, MostRecent 1/n/n+3/random) and audit proof is compared structurally with the model's and its verification verdict and result with the model verifier's; ground truth from an independent version table",
+        "partial": "theorem: unpublished label refused; completeness of the returned account is decided by correspondence + oracle",
+        "assumptions": ["VRF outputs are an environment table produced by the implementation's primitive"],
+    },
+    "C04": {
+        "coq_deps": ["DirFacts"],
+        "steps": [{"sub": "dirs", "quick": [0], "thorough": [1]}],
+        "rule": "random publish histories on the real Directory (both configurations; cached/uncached; sequential/parallel insertion; labels incl. empty, 1-byte, prefix-related and 330-byte; values incl. empty and 1500-byte; inserts, updates, re-submissions, no-op and duplicate-label batches): after every publish the full database (every node record, the epoch record, every value state) and the returned epoch hash are recomputed by the extracted model; the root hash is recomputed from the history alone by the canonical-trie specification (specroot); every lookup, key-history (Complete, MostRecent 1/n/n+3/random) and audit proof is compared structurally with the model's and its verification verdict and result with the model verifier's; ground truth from an independent version table",
+        "partial": "theorems: range validation, one single-epoch proof per epoch, list-length checks; that the walk over the latest tree verifies for every range is decided by correspondence + oracle (all pairs after every queried epoch)",
+        "assumptions": [],
+    },
 }
